@@ -124,7 +124,8 @@ pub enum Verdict {
     Denied { live: u64, req: u64, delivered: u64, bound: u64 },
     /// process died during load without a verdict
     Died { what: String },
-    Timeout,
+    /// killed by the wall-clock watchdog; cpu_ms = CPU time the worker consumed on this case
+    Timeout { cpu_ms: u64, loaded: bool },
 }
 
 #[derive(Clone, Copy, Debug, Default)]
@@ -148,6 +149,8 @@ pub struct Slot {
     started_ms: AtomicU64,
     pid: AtomicU64,
     killed: AtomicBool,
+    cpu_at_start: AtomicU64,
+    cpu_at_kill: AtomicU64,
 }
 
 pub struct Pool {
@@ -156,6 +159,23 @@ pub struct Pool {
     timeout_ms: AtomicU64,
     stop: Arc<AtomicBool>,
     pub restarts: AtomicU64,
+}
+
+/// user+system CPU time of a process in milliseconds (from /proc/<pid>/stat; 0 if unavailable)
+pub fn proc_cpu_ms(pid: u64) -> u64 {
+    let s = match std::fs::read_to_string(format!("/proc/{}/stat", pid)) {
+        Ok(s) => s,
+        Err(_) => return 0,
+    };
+    // fields after the ")" that closes the command name: state is field 3, utime 14, stime 15
+    let rest = match s.rfind(')') {
+        Some(i) => &s[i + 1..],
+        None => return 0,
+    };
+    let f: Vec<&str> = rest.split_whitespace().collect();
+    let ticks: u64 = f.get(11).and_then(|x| x.parse::<u64>().ok()).unwrap_or(0) + f.get(12).and_then(|x| x.parse::<u64>().ok()).unwrap_or(0);
+    let hz = unsafe { libc::sysconf(libc::_SC_CLK_TCK) }.max(1) as u64;
+    ticks * 1000 / hz
 }
 
 fn spawn_worker() -> Handle {
@@ -192,7 +212,7 @@ fn spawn_worker() -> Handle {
 impl Pool {
     pub fn new(n: usize) -> Arc<Pool> {
         let pool = Arc::new(Pool {
-            slots: (0..n).map(|_| Slot { h: Mutex::new(None), started_ms: AtomicU64::new(0), pid: AtomicU64::new(0), killed: AtomicBool::new(false) }).collect(),
+            slots: (0..n).map(|_| Slot { h: Mutex::new(None), started_ms: AtomicU64::new(0), pid: AtomicU64::new(0), killed: AtomicBool::new(false), cpu_at_start: AtomicU64::new(0), cpu_at_kill: AtomicU64::new(0) }).collect(),
             epoch: Instant::now(),
             timeout_ms: AtomicU64::new(30_000),
             stop: Arc::new(AtomicBool::new(false)),
@@ -215,6 +235,7 @@ impl Pool {
                 if st != 0 && now > st + to {
                     let pid = s.pid.load(Ordering::Relaxed);
                     if pid != 0 && !s.killed.swap(true, Ordering::Relaxed) {
+                        s.cpu_at_kill.store(proc_cpu_ms(pid), Ordering::Relaxed);
                         unsafe {
                             libc::kill(pid as i32, libc::SIGKILL);
                         }
@@ -242,6 +263,7 @@ impl Pool {
         let h = guard.as_mut().unwrap();
         slot.pid.store(h.child.id() as u64, Ordering::Relaxed);
         slot.killed.store(false, Ordering::Relaxed);
+        slot.cpu_at_start.store(proc_cpu_ms(h.child.id() as u64), Ordering::Relaxed);
         let mut hdr = Vec::with_capacity(16 + data.len());
         hdr.extend_from_slice(&flags.to_le_bytes());
         hdr.extend_from_slice(&(data.len() as u32).to_le_bytes());
@@ -311,7 +333,8 @@ impl Pool {
             return v;
         }
         if slot.killed.load(Ordering::Relaxed) {
-            return Verdict::Timeout;
+            let cpu_ms = slot.cpu_at_kill.load(Ordering::Relaxed).saturating_sub(slot.cpu_at_start.load(Ordering::Relaxed));
+            return Verdict::Timeout { cpu_ms, loaded: loaded.is_some() };
         }
         std::thread::sleep(Duration::from_millis(20));
         let tail = hd.stderr_tail.lock().unwrap().clone();
